@@ -156,6 +156,17 @@ CHECKS = {
              "crystal-system fill is C08/C09. In the lattice case the strain fractions handed downstream are abstracted by fresh symbols "
              "after their value has been checked (recorded cut).",
         design="3/C05"),
+    "C11": dict(
+        engine="symnum+z3",
+        technique="symbolic execution of mode_gamma.py with scipy's interpolator classes as uninterpreted smooth-function factories bound "
+                  "through the real constructor signatures; exact least squares for lsq_poly; recording axes for plot_modes; z3 equalities",
+        text="For each of the seven methods and the listed orders: the three returned arrays are exp(F), -F', -F'' of one and the same "
+             "interpolant built from the flipped (ln V, ln omega) nodes with the documented node selection (for every implementation of "
+             "the interpolant); lsq_poly is exact for ln omega polynomial in ln V up to the order; interpolate_modes fills slot (q,m) from "
+             "that mode only and leaves Gamma acoustic slots zero; plot_modes draws freq / gamma / V dgamma/dV for n = 0, 1, 2.",
+        note="That scipy's interpolants reproduce power laws on the extrapolated grid is library numerics (outside; used only in replays). "
+             "Known finding: 'hermite' cannot be constructed (known_findings.json).",
+        design="3/C11"),
 }
 
 NOT_APPLICABLE = {
